@@ -14,14 +14,14 @@ import vlib
 ASSUMPTIONS = [
     "hook events are emitted at the vhook points of relay.go (build tag verif); atomic stores/CAS are treated as silent steps because their hooks are not lock-protected",
     "JunkBeforeLine (named deviation): bytes parked between the trigger and the consumed ACT/CFG line are eaten by the junk-tolerant line read; the property speaks of bytes after the consumed line",
-    "one handshake per relay instance here; repeated transfers through one relay are exercised under C14",
+    "a third of the confirmed scenarios run a second transfer through the same relay instance; undecodable ACT / CFG lines are exercised (the relay tells both sides and flushes)",
 ]
 
 
 def run(tier, v):
     quick = tier == "quick"
     cov = {"samples": [], "states": 0, "transitions": 0}
-    for cfg in ("Relay_real.cfg", "Relay_refuse.cfg", "Relay_real2.cfg"):
+    for cfg in ("Relay_real.cfg", "Relay_refuse.cfg", "Relay_real2.cfg", "Relay_badact.cfg", "Relay_badcfg.cfg", "Relay_tworounds.cfg"):
         r = vlib.tlc("RelayMC", cfg, timeout=1800, heap="8g")
         if not r["ok"]:
             raise vlib.Infra("Relay design violates %s in %s\n%s" % (r["violated"], cfg, r["out"][-3000:]))
